@@ -151,12 +151,12 @@ class Check(PropertyCheck):
                   "whole table + general lemmas): every historical version key reaches the current format in a strictly "
                   "version-increasing chain (the migrate loop terminates from every version value whatsoever), the current "
                   "version is a fixed point, unknown versions are rejected with 'please update' exactly for larger "
-                  "integers. The field surgery of the ten converters for integer formats 10..17, 19, 20 is modelled over the tnetstring value type of C36 (Model/C38_Conv.lean) and proved to write exactly the next version (conv_writes_next_version), to leave every top-level key outside a stated per-converter set untouched (conv_frame; request/id/type/error/intercepted never change: request_preserved; response only by 13->14), plus marked_migration, mode_dropped, proxy_mode_added, state_dropped, timestamp_created_from_request; each step of the real converters is compared byte for byte (re-encoded tnetstring) with the Lean converter. Whole-chain behaviour is validated differentially: all shipped historical dumps, "
+                  "integers. The field surgery of the eleven converters for integer formats 10..20 is modelled over the tnetstring value type of C36 (Model/C38_Conv.lean) and proved to write exactly the next version (conv_writes_next_version), to leave every top-level key outside a stated per-converter set untouched (conv_frame; request/id/type/error/intercepted never change: request_preserved; response only by 13->14), plus marked_migration, mode_dropped, proxy_mode_added, state_dropped, timestamp_created_from_request; 18->19 (renames, defaults, the UTF-8/backslashreplace decode of host bytes built on the C35 decoder transcription, sni=True repair) with conv_18_19_spec, client_frame_18_19/client_renames_18_19, server_frame_18_19/server_renames_18_19, host_decode_valid_utf8/host_decode_ascii (a valid-UTF-8 host is the same text afterwards) and host_decode_escape; the whole modelled chain 12->21 keeps the request and arrives at version 21 (steps_request_preserved by induction over any number of converter steps, chain_request_preserved); each step of the real converters is compared byte for byte (re-encoded tnetstring) with the Lean converter. Whole-chain behaviour is validated differentially: all shipped historical dumps, "
                   "synthetic states downgraded by inverse converters to each version 10..20, current states, and unknown "
                   "future versions go through the real migrate_flow / FlowReader / FlowWriter.")
-    level_note = ("partial: proved are the version chain, the loop and the per-converter field facts for formats 10..17, 19, 20 (11->12 "
-                  "only without websocket metadata; 13->14 timestamp repair only for integer timestamps); tuple-version converters, "
-                  "18->19 and the websocket branches of 11->12 are validated only (goldens for shipped dumps, inverse-converter "
+    level_note = ("partial: proved are the version chain, the loop and the per-converter field facts for formats 10..20 (11->12 "
+                  "only without websocket metadata; 13->14 timestamp repair only for integer timestamps); tuple-version converters "
+                  "and the websocket branches of 11->12 are validated only (goldens for shipped dumps, inverse-converter "
                   "round trips for versions 10..20). "
                   "trusted: Lean kernel, the AST-based translator (reads `data[\"version\"] = …` in each converter).")
     technique = "Lean 4 proof over a table regenerated from the source (decide +kernel + lemmas) + differential migration runs"
@@ -255,6 +255,9 @@ class Check(PropertyCheck):
                 v = rng.choice(CONV_MODELLED)
                 c = {"kind": "conv", "v": v, "state": canon_in(st), "tweak": rng.choice(CONV_TWEAKS.get(v, [None]) + [None])}
                 if v <= 16 and rng.chance(0.6): c["mode"] = rng.choice(OLD_MODES)
+                if c["tweak"] in ("host-bytes", "sni-true-bytes"):
+                    alpha = [0x61, 0x2e, 0x80, 0xff, 0xc3, 0xa9, 0x5c, 0x00, 0xe2, 0x82, 0xac, 0xf0, 0x9f, 0x98, 0x80, 0xed, 0xa0, 0xc0, 0xf4, 0x90]
+                    c["host_hex"] = [bytes(rng.choice(alpha) for _ in range(rng.randint(0, 10))).hex() for _ in range(4)]
                 if c["tweak"] == "sni-bytes":
                     c["sni_hex"] = bytes(rng.choice([0x61, 0x2e, 0x80, 0xff, 0xc3, 0xa9, 0x5c, 0x00]) for _ in range(rng.randint(0, 12))).hex()
                 yield c
@@ -395,7 +398,16 @@ class Check(PropertyCheck):
                 out = compat.converters[case["v"]](copy.deepcopy(old2))
             except Exception as e:
                 return {"wire": wire.hex(), "out": None, "exc": f"{type(e).__name__}: {e}"[:120]}
-            return {"wire": wire.hex(), "out": tnetstring.dumps(out).hex(), "version": out.get("version"),
+            hosts = None
+            if case["v"] == 18 and case.get("tweak") in ("host-bytes", "sni-true-bytes"):
+                hosts = []
+                for (cn, old_name, new_name) in (("client_conn", "address", "peername"), ("server_conn", "address", "address"),
+                                                 ("server_conn", "ip_address", "peername"), ("server_conn", "source_address", "sockname")):
+                    o_ = old2[cn].get(old_name); n_ = out[cn].get(new_name)
+                    hosts.append([cn + "." + old_name, o_[0].hex() if o_ and isinstance(o_[0], bytes) else None,
+                                  n_[0] if n_ and isinstance(n_[0], str) else (None if not n_ else repr(n_[0]))])
+                hosts.append(["server_conn.sni", None, out["server_conn"].get("sni") if isinstance(out["server_conn"].get("sni"), (str, type(None))) else repr(out["server_conn"].get("sni"))])
+            return {"wire": wire.hex(), "out": tnetstring.dumps(out).hex(), "version": out.get("version"), "hosts": hosts,
                     "request_same": out.get("request") == old2.get("request"),
                     "untouched_same": all(out.get(k_) == old2.get(k_) for k_ in ("id", "type", "error", "intercepted"))}
         if k == "future":
@@ -442,6 +454,22 @@ class Check(PropertyCheck):
             old["response"]["timestamp_start"] = None
         elif t == "no-request":
             old.pop("request", None)
+        elif t in ("host-bytes", "sni-true-bytes", "sni-true"):
+            # releases that wrote format <= 18 kept host names as bytes in the address pairs
+            cc, sc = old["client_conn"], old["server_conn"]
+            if t != "sni-true":
+                hx = [bytes.fromhex(x) for x in case["host_hex"]]
+                for (c_, name), h in zip(((cc, "address"), (sc, "address"), (sc, "ip_address"), (sc, "source_address")), hx):
+                    if c_.get(name): c_[name] = [h] + list(c_[name][1:])
+            if t != "host-bytes":
+                if not sc.get("address"): raise Skip()
+                sc["sni"] = True
+        elif t == "ts-none":
+            old["client_conn"]["timestamp_start"] = None
+        elif t == "no-transport":
+            old["client_conn"].pop("transport_protocol", None); old["server_conn"].pop("transport_protocol", None)
+        elif t == "no-cipher-name":
+            old["server_conn"].pop("cipher_name", None)
         elif t == "quic":
             old["client_conn"]["tls_version"] = "QUIC"
         elif t == "quic-server":
@@ -506,6 +534,16 @@ class Check(PropertyCheck):
                 if obs["version"] != case["v"] + 1: fails.append(f"converter {case['v']} wrote version {obs['version']}")
                 if not obs["request_same"]: fails.append(f"converter {case['v']} changed the request")
                 if not obs["untouched_same"]: fails.append(f"converter {case['v']} changed id/type/error/intercepted")
+                # 18→19: a host name an old release stored as bytes is that text afterwards (host_decode_valid_utf8), an
+                # undecodable byte is spelled \\xNN (host_decode_escape) — expectation computed from the input bytes alone
+                for name, hx, got in (obs.get("hosts") or []):
+                    if hx is None: continue
+                    want = ref_backslash_utf8(bytes.fromhex(hx))
+                    if got != want: fails.append(f"converter 18: {name} host bytes {hx} became {got!r}, expected {want!r}")
+                if obs.get("hosts") and case.get("tweak") == "sni-true-bytes":
+                    hx = [h for n, h, g in obs["hosts"] if n == "server_conn.address"][0]
+                    if hx is not None and obs["hosts"][-1][2] != ref_backslash_utf8(bytes.fromhex(hx)):
+                        fails.append(f"converter 18: sni=True with address host {hx} became sni {obs['hosts'][-1][2]!r}")
         elif k == "future":
             # "Files from newer, unknown format versions are rejected with an explanatory error"
             v = case["version"]
@@ -594,9 +632,26 @@ class Check(PropertyCheck):
 # values old releases stored in the top-level "mode" of a flow (their `mode` option as typed)
 OLD_MODES = ["regular", "transparent", "upstream", "socks5", "reverse", "upstream:http://proxy.example:8080", "reverse:https://example.com",
              "reverse:http://127.0.0.1:8000", "dummy", ""]
-CONV_MODELLED = [10, 11, 12, 13, 14, 15, 16, 17, 19, 20]
+CONV_MODELLED = [10, 11, 12, 13, 14, 15, 16, 17, 18, 18, 19, 20]
 CONV_TWEAKS = {10: ["sni-bytes", "sni-bytes", "sni-none", "empty-lists"], 12: ["marked-true", "marked-false"], 13: ["ts-null", "ts-null"],
-               15: ["no-request"], 20: ["quic", "quic-server"]}
+               15: ["no-request"], 18: ["host-bytes", "host-bytes", "host-bytes", "sni-true", "sni-true-bytes", "ts-none", "no-transport", "no-cipher-name"],
+               20: ["quic", "quic-server"]}
+def ref_backslash_utf8(b):
+    """reference for decode(errors='backslashreplace'): the longest strictly valid UTF-8 character at each position, else \\xNN for that byte"""
+    out = []; i = 0
+    while i < len(b):
+        for n in (1, 2, 3, 4):
+            try:
+                ch = b[i:i + n].decode("utf-8", "strict")
+            except UnicodeDecodeError:
+                continue
+            if len(ch) == 1:
+                out.append(ch); i += n; break
+        else:
+            out.append("\\x%02x" % b[i]); i += 1
+    return "".join(out)
+
+
 def split_records(raw):
     """the byte slices of the tnetstring records of a flow file"""
     f = _io.BytesIO(raw); out = []; pos = 0
